@@ -82,6 +82,39 @@ MISSED_FIRST = {
     "C17-intersect-volume-sorts-bounds": "Plucker methods (contains, closest, intersect_plane, intersect_volume) in `Api.VecApi` - found the array_like defect of intersect_volume",
     "C18-line-first-direction": "line() of a Twist3 holding several unit twists (and twist exp / line / conversion judged per value in C09)",
     "C20-ctor-6x6-transposed": "`addn / subn / negn` events on objects holding N = 2, 3, 6, 7 values",
+    # round 7
+    "C01-r7-transforms2d-base-transforms2d-trexp2": "exponentials of the null element in every argument form (identity of the right size)",
+    "C01-r7-smuserlist-smuserlist-arghandler-the": "object-valued constructor arguments: refused, or a valid member (shape checked by the validity residual)",
+    "C03-r7-transforms2d-base-trexp2-spatialmath": "`Screw.UnitTrans` (prismatic unit twists, two-argument forms, Pythagorean directions)",
+    "C03-r7-twist-twist3-exp-spatialmath-twist": "multi-valued twists whose first value is a pure translation",
+    "C04-r7-quaternion-quaternion-log-inherited-b": "routes UnitQuaternion -> log -> SO3.Exp, also from the negated quaternion",
+    "C04-r7-transforms3d-base-tr2eul-behind-so3": "angle-set bridges (eul / rpy of one representation fed to the constructor of another)",
+    "C04-r7-twist-twist2-__mul__-twist2-se2": "routes Twist3 * SE3 and Twist2 * SE2 compared with the product of the exponentials",
+    "C05-r7-quaternion-unitquaternion-angvec-the": "angle-parameterised constructors over angles beyond one turn",
+    "C06-r7-dualquaternion-unitdualquaternion-se3": "route UnitDualQuaternion(SE3(T)).SE3() * p and (X * Y).SE3() * p",
+    "C06-r7-quaternion-unitquaternion-r-branch-fo": "rotation-matrix stacks `.R` of multi-valued UnitQuaternion / SO3 / SE3 applied per value",
+    "C07-r7-pose3d-se3-so3-r-check": "pseudo-class `SE3.SO3(R)` in `Validity` (kinds rotation-2x2 / rotation-4x4)",
+    "C07-r7-transforms3d-base-isrot-spatialmath-b": "object-dtype variants of every item",
+    "C08-r7-quaternion-unitquaternion-__mul__-in": "operand kinds `PtsMat / SelfMat` in `DispatchTable`",
+    "C08-r7-super_pose-smpose-__truediv__-the-of": "never-None rule for cells the table leaves unspecified",
+    "C11-r7-trinterp-se3-forces-shortest": "route agreement (same arc for the same setting of `shortest`), start poses turned by almost half a turn - found the slerp defect, repaired",
+    "C13-r7-twist3-exp-theta-zero": "law exp(theta ad S) = Ad(S.exp(theta)) with theta in {0, 0.0, 1e-9, ...}",
+    "C13-r7-unittwist2-norm-signed": "`LieTrace` events unittwist / unittwist_norm / unittwist2 / unittwist2_norm (operators `TwMag3 / TwMag2`)",
+    "C14-r7-trnorm-keeps-bottom-row": "noise on the bottom row of nearly valid rigid-motion matrices (3D and 2D)",
+    "C14-r7-uq-nx4-squared-norm": "multi-valued results read as stored (`.data`, `.A`), not through indexing",
+    "C15-r7-se2-ctor-truthiness": "`Api.ScalarZeros` (which of the separate scalars are zero)",
+    "C15-r7-slerp-ends-unvalidated": "entries `slerp(s=0)`, `slerp(s=1)` in `Api.VecApi`",
+    "C16-r7-getunit-sym-list-deg": "`Api.SymOptions` (degrees, translation keyword) - found two defects, repaired",
+    "C16-r7-trot-t-dtype": "same",
+    "C17-r7-arghandler-adopts-list": "`Sharing.CtorExt / CtorA` (a caller-owned list of arrays, the array returned by `.A`)",
+    "C17-r7-udq-se3-rebinds-real": "dual-quaternion receivers obtained in every documented way, snapshots attribute by attribute with classes",
+    "C17-r7-uq-interp-inplace-negate": "every cell of the per-value method table (`Dispatch`, options included) replayed with operand snapshots",
+    "C18-r7-rodrigues-theta-zero": "two-argument base forms `trexp(S, theta)`, `trexp(se3, theta)`, `trexp2(...)`, `trexp(w, theta)` over the sweep (0 as int and float)",
+    "C18-r7-theta-prismatic-norm": "theta() of prismatic twists, their inverses and multiples",
+    "C18-r7-twist-inv-reversed": "inverse of a Twist3 holding several unit twists, per value",
+    "C19-r7-point-multi-unnormalised": "`point()` with a list / array of parameters",
+    "C20-r7-add-len-6-vs-1": "lengths 6 and 7 in the typed sums",
+    "C20-r7-trexp-theta-mod-2pi": "motions generated by twists of large magnitude (prismatic beyond 2 pi, screws wound more than one turn)",
 }
 
 
